@@ -288,7 +288,11 @@ def run(ctx):
                 explicit = mode != 'guessed'
                 other_ext = rng.choice([e for f_, e in [('geojson', '.geojson'), ('geojson', '.json'), ('wkt', '.wkt'), ('wkb', '.wkb')]
                                         if f_ != fmt])
-                out = os.path.join(tmp, f'cli_{n}_{fmt}_{mode}' + {'guessed': ext, 'unknown_ext': '.out', 'conflicting_ext': other_ext,
+                # (a guessed name may carry the extension of another format inside: only the last extension counts)
+                inner = other_ext if mode == 'guessed' and (n + len(ext)) % 2 == 0 else ''
+                if inner:
+                    ctx.count('export:another extension inside the name')
+                out = os.path.join(tmp, f'cli_{n}_{fmt}_{mode}{inner}' + {'guessed': ext, 'unknown_ext': '.out', 'conflicting_ext': other_ext,
                                                                    'matching_ext': ext, 'no_ext': ''}[mode])
                 argv = ['export-geometry', src, out] + ([rng.choice(['-f', '--format']), fmt] if explicit else [])
                 code, err = run_cli(argv)
@@ -371,7 +375,7 @@ def run(ctx):
             # output names from which no format can be guessed: an unknown extension, none at all, a trailing dot, a name that is
             # only an extension, a dotted directory
             os.makedirs(os.path.join(tmp, 'v1.2'), exist_ok=True)
-            for bad_name in [f'cli_{n}.xyz'] + [[f'cli_{n}_mesh', f'cli_{n}_mesh.', os.path.join('v1.2', f'mesh_{n}'), '.geojson'][n % 4]]:
+            for bad_name in [f'cli_{n}.xyz', f'cli_{n}' + ['.wkt.bak', '.geojson.tmp', '.shp.old', '.json.1'][n % 4]] + [[f'cli_{n}_mesh', f'cli_{n}_mesh.', os.path.join('v1.2', f'mesh_{n}'), '.geojson'][n % 4]]:
                 code, err = run_cli(['export-geometry', src, os.path.join(tmp, bad_name)])
                 ctx.count('export:unknown_extension')
                 ctx.case((label, 'export', 'unguessable', bad_name[-6:]), True)
